@@ -204,6 +204,32 @@ def collision_cases(rng, n):
     return out
 
 
+def shift_cases():
+    """pairs of shift types that differ in exactly one of: target mode, source mode, direction, continuation - compared directly (the shift is the
+    ROOT of the comparison), through a name, and nested under a constructor; only identical ones are equal"""
+    U = lambda m: {"k": "unit", "mode": m}
+    shifts = []
+    for k in ("up", "down"):
+        for f in MODES:
+            for t in MODES:
+                ok = (MODES.index(f) >= MODES.index(t) or t == "rep") if k == "up" else (MODES.index(f) <= MODES.index(t) or f == "rep")
+                shifts.append({"k": k, "from": f, "to": t, "t": U(f)})
+    out = []
+    for a in shifts:
+        for b in shifts:
+            if sum([a["k"] != b["k"], a["from"] != b["from"], a["to"] != b["to"]]) > 1:
+                continue
+            defs = [{"name": "A", "t": a}, {"name": "B", "t": b}]
+            nA = {"k": "name", "name": "A", "mode": a["to"]}
+            nB = {"k": "name", "name": "B", "mode": b["to"]}
+            qs = [(a, b), (b, a), (nA, nB), (nA, b), (a, nB)]
+            if a["to"] == b["to"]:
+                wrap = lambda x: {"k": "sel", "br": [{"label": "l", "t": x}], "mode": a["to"]}
+                qs.append((wrap(a), wrap(b)))
+            out.append((defs, qs))
+    return out
+
+
 def queries_for(defs, rng, limit=7):
     terms = []
     for d in defs:
@@ -244,6 +270,9 @@ def c08():
             envs += make_envs(sh, 3000, rng, "small")
         explicit = {}
         for defs, qs in collision_cases(rng, 60 if tr == "quick" else 100000):
+            explicit[id(defs)] = qs
+            envs.append(defs)
+        for defs, qs in shift_cases():
             explicit[id(defs)] = qs
             envs.append(defs)
         # real calls
@@ -669,9 +698,13 @@ def c16():
                 v.violation("%s variant changes verdict or modes: %s  =>  %s" % (kind, c["text"].replace("\n", " ; ")[:150], text.replace("\n", " ; ")[:150]),
                             {"original": c, "variant": text, "reply": {k: r.get(k) for k in ("parse", "tc", "crash")}}, {"kind": kind})
     w.stop()
+    # annotations inside programs (cut annotations, signatures): the call-cut family of the typing oracle writes every mode / omits it
+    import typing_oracle
+    tyc = typing_oracle.report(v, "C16", typing_oracle.stage())
     cov = {"states": max(1, st), "transitions": max(1, ge), "traces_validated_against_impl": len(cases) - len(fails),
            "samples": [{"text": c["text"], "modes": c["modes"]} for c in cases[:2]],
            "accepted_definition_sets": len(cases), "metamorphic_variants_run": meta, "shape_sets": camp["shapes"]}
+    cov.update(tyc)
     vlib.write_evidence("C16", "model_checking", cov, time.time() - t0, len(v.violations),
                         ["type definitions only (signatures / cut annotations go through the same AddMissingModalities; covered by the typing corpus)"])
     return v.finish()
